@@ -61,3 +61,8 @@ impl ShareEncoder for BFVSimdShareEncoder {
         out
     }
 }
+
+// Verification hook (add-only): compiled only under `cargo kani` or `--cfg heathcliff_verif`.
+#[cfg(any(kani, heathcliff_verif))]
+#[path = "/verif/incrate/multiparty_utils_v.rs"]
+pub(crate) mod verif_v;
